@@ -28,10 +28,16 @@ def trio1(ctx: Ctx) -> None:
     cvar = fn.args.args[1].arg
     mvar = fn.args.args[0].arg
     objs = [s for s in walk_scope(fn) if isinstance(s, ast.Assign) and norm(s.targets[0]) == f"{cvar}.obj"]
-    if len(objs) == 1 and norm(objs[0].value) == f"{mvar}._nursery":
+    # locals that are, once and unconditionally, the manager's nursery
+    nur = {a_.targets[0].id for a_ in fn.body if isinstance(a_, ast.Assign) and len(a_.targets) == 1 and isinstance(a_.targets[0], ast.Name) and norm(a_.value) == f"{mvar}._nursery"
+           and sum(1 for w_ in walk_scope(fn) if isinstance(w_, ast.Name) and w_.id == a_.targets[0].id and isinstance(w_.ctx, ast.Store)) == 1}
+    nursery_exprs = {f"{mvar}._nursery"} | nur
+    if len(objs) == 1 and norm(objs[0].value) in nursery_exprs:
         ctx.R.ok("TRIO-1", f"{cvar}.obj = {mvar}._nursery")
-    else:
+    elif len(objs) == 1 and isinstance(objs[0].value, (ast.Attribute, ast.Name)):
         ctx.R.fail("TRIO-1", mod, fn, "the nursery context's obj must be the trio.Nursery behind the manager (manager._nursery)", construct="nursery obj")
+    else:
+        ctx.R.undecided("TRIO-1", f"{cvar}.obj is assigned {len(objs)} time(s) / from an expression that is not a plain attribute")
     ch = [s for s in walk_scope(fn) if isinstance(s, ast.Assign) and norm(s.targets[0]) == f"{cvar}.children"]
     ok = False
     why = "children not assigned"
@@ -44,7 +50,7 @@ def trio1(ctx: Ctx) -> None:
         why = ""
         if len(comp.generators) != 1 or gen.ifs:
             why = f"child tasks are filtered (`{norm(comp)[:60]}`): the tree is no longer isomorphic to Trio's"
-        elif it not in (f"{cvar}.obj.child_tasks", f"{mvar}._nursery.child_tasks"):
+        elif it not in {f"{cvar}.obj.child_tasks"} | {f"{x_}.child_tasks" for x_ in nursery_exprs}:
             why = f"children must be the nursery's child_tasks, not `{it}`"
         elif not (isinstance(elt, ast.Call) and ctx.P.resolve_call(mod, elt).is_pkg("_extract", "extract_child") and elt.args and norm(elt.args[0]) == norm(gen.target)):
             why = "each child must be extract_child(<that task>, ...)"
@@ -376,7 +382,12 @@ def grn5(ctx: Ctx) -> None:
                 seen.setdefault(target._p, {}).update(kw)
             return None
         env: Dict[str, object] = {"sys": SimpleNamespace(implementation=SimpleNamespace(name="cpython"), version_info=(3, 12, 1, "final", 0))}
-        m = Mini(env, {}, {"customize": customize, "hasattr": lambda o_, n_: isinstance(o_, Path)})
+        def gattr(o_, n_, *d_):
+            if isinstance(o_, Path) and isinstance(n_, str):
+                return getattr(o_, n_)
+            raise Unsupported("getattr on something that is not a module path")
+        helpers_ = {k_: f_ for k_, f_ in mod.defs.items() if isinstance(f_, ast.FunctionDef) and "." not in k_ and f_ is not fn}
+        m = Mini(env, helpers_, {"customize": customize, "hasattr": lambda o_, n_: isinstance(o_, Path), "getattr": gattr})
         for st in fn.body:
             if isinstance(st, ast.Import):
                 for a_ in st.names:
@@ -384,7 +395,7 @@ def grn5(ctx: Ctx) -> None:
                 continue
             if isinstance(st, (ast.FunctionDef, ast.AsyncFunctionDef, ast.ClassDef)) or (isinstance(st, ast.Expr) and isinstance(st.value, ast.Constant)):
                 continue
-            if not any(isinstance(c_, ast.Call) and isinstance(c_.func, ast.Name) and c_.func.id == "customize" for c_ in ast.walk(st)):
+            if not any(isinstance(c_, ast.Call) for c_ in ast.walk(st)):
                 continue
             try:
                 m.stmt(st)
